@@ -75,14 +75,23 @@ def run_arb_case(case, judged):
     decoy(rng, twin)
     arb = wishbone.Arbiter(addr_width=aw, data_width=dw, granularity=gran, features=afeat)
     intrs = []
+    rejected = []
     for i, d in enumerate(case["intrs"]):
         ib = wishbone.Interface(addr_width=aw, data_width=dw, granularity=d["gran"], features=set(d["features"]),
                                 path=(f"i{i}",))
-        if rng.random() < 0.1:
-            try:       # an incompatible initiator is refused; the arbiter keeps being used afterwards
-                arb.add(wishbone.Interface(addr_width=aw + 1, data_width=dw, granularity=d["gran"], path=(f"bad{i}",)))
+        if rng.random() < 0.15:
+            # an incompatible initiator is refused; the arbiter keeps being used afterwards and the refused
+            # interface stays alive in the design, driving its own request lines
+            lacking = [f for f in ("err", "rty") if f in afeat]
+            if lacking and rng.random() < 0.7:
+                bad = wishbone.Interface(addr_width=aw, data_width=dw, granularity=d["gran"],
+                                         features=set(d["features"]) - {rng.choice(lacking)}, path=(f"bad{i}",))
+            else:
+                bad = wishbone.Interface(addr_width=aw + 1, data_width=dw, granularity=d["gran"], path=(f"bad{i}",))
+            try:
+                arb.add(bad)
             except ValueError:
-                pass
+                rejected.append(bad)
         arb.add(ib)
         intrs.append(ib)
         if rng.random() < 0.08:
@@ -190,6 +199,11 @@ def run_arb_case(case, judged):
             for i, r in enumerate(reqs):
                 for k, v in r.items():
                     setv(ctx, getattr(intrs[i], k), v)
+            for bad in rejected:      # not an initiator of this arbiter: whatever it does must have no effect
+                ctx.set(bad.cyc, rng.getrandbits(1))
+                ctx.set(bad.stb, rng.getrandbits(1))
+                ctx.set(bad.adr, ((1 << idx_bits) - 1) if (1 << idx_bits) - 1 >= n else rng.getrandbits(len(bad.adr)))
+                ctx.set(bad.dat_w, bits(rng, dw))
             resp = {"ack": rng.getrandbits(1), "dat_r": bits(rng, dw)}
             for f in ("err", "rty", "stall"):
                 if f in afeat:
